@@ -97,7 +97,10 @@ def _case(draw):
             parts.append(refframe.build(framing, uid, draw(_valid_write(5)), 200, 0))
     stream = b''.join(parts)
     single = True if framing == 'tls' else draw(st.booleans())     # the TLS framing carries no unit id
-    return {'frontend': fe, 'framing': framing, 'uid': uid, 'single': single, 'stream': stream.hex(), 'cuts': draw(gens.cuts())}
+    cuts = draw(gens.cuts())
+    if fe in frontends.DATAGRAM and draw(st.integers(0, 3)) == 0:
+        cuts = ['at', [0, 0, draw(st.integers(0, 400))]]       # leading zero-length datagram(s)
+    return {'frontend': fe, 'framing': framing, 'uid': uid, 'single': single, 'stream': stream.hex(), 'cuts': cuts}
 
 
 def strategy(tier):
@@ -160,7 +163,7 @@ def run_case(case):
     stream = bytes.fromhex(case['stream'])
     labels = ['frontend:' + fe, 'framing:' + framing]
     chunks = gens.apply_cuts(stream, case['cuts'])
-    if fe in frontends.DATAGRAM:
+    if fe in frontends.DATAGRAM and not case.get('empty_datagrams', True):
         chunks = [c for c in chunks if c]
     hosted = [uid] if not case['single'] else [0]
     ctx = c09.make_context(case['single'], hosted, LAY)
